@@ -8,7 +8,7 @@ open KinModel.Drv KinModel.Schema
 /-- request: {schema, value, regex, formats}; reply: the model's report in each mode and the spec verdict -/
 def handle (j : Json) : Json :=
   let sj := getD j "schema" (Json.mkObj [])
-  let s := toS sj
+  let s := caseSchema j
   let v := toJ (getD j "value" Json.null)
   let env := envOf j
   let t := events env s v
